@@ -109,9 +109,12 @@ def parse(data):
         bufs.append(d)
     model["buffers"] = bufs
     meta = {}
+    meta_list = []
     for m in root.tables(6):
         meta[m.string(0)] = m.scalar(1, "I")
+        meta_list.append((m.string(0), m.scalar(1, "I")))
     model["metadata"] = meta
+    model["metadata_list"] = meta_list        # every entry in file order (names may repeat)
     sgs = []
     for sg in root.tables(2):
         tensors = []
